@@ -199,14 +199,17 @@ def run_suite(suite, prop, cases, driver_ok, stats, known, search_only=False):
     results = []
     suite.setup()
     try:
-        for c in cases:
-            try:
-                r = _impl_timed(suite, c)
-            except CaseTimeout:
-                r = {"timeout": True, "model": {"error": "timeout"}, "obs": {}}
-            except Exception as e:  # harness failure on this case = infrastructure problem
-                r = {"harness_exception": f"{type(e).__name__}: {e}", "tb": traceback.format_exc()[-800:]}
-            results.append(r)
+        if hasattr(suite, "impl_many"):
+            results = suite.impl_many(cases)   # the suite parallelises over worker processes itself
+        else:
+            for c in cases:
+                try:
+                    r = _impl_timed(suite, c)
+                except CaseTimeout:
+                    r = {"timeout": True, "model": {"error": "timeout"}, "obs": {}}
+                except Exception as e:  # harness failure on this case = infrastructure problem
+                    r = {"harness_exception": f"{type(e).__name__}: {e}", "tb": traceback.format_exc()[-800:]}
+                results.append(r)
         model = None
         if driver_ok and not search_only:
             mcases = [suite.model_case(c) if hasattr(suite, "model_case") else c for c in cases]
